@@ -21,7 +21,8 @@ RULE = ("passwords over printable ASCII (0x20..0x7e) minus {?, \"} and (mostly) 
         "(bounded number per run; the KDF answer sent to the model is computed by the harness with the parameters of the "
         "property statement). chk: accepted and rejected passwords (128/129/300 characters, '?', '\"', backslash, empty, "
         "non-ASCII). dec7: a malformed stream for the decoder (odd length, one missing digit, lower case, non-hex, signs, "
-        "blanks, line feeds, non-numeric salt, two characters, empty) compared with the model only. "
+        "blanks, line feeds, non-numeric salt, two characters, empty) and the CiscoPassword(ep).decrypt_type_7() calling form, "
+        "compared with the model only. "
         "non-trivial = a type-7 case whose key index wraps (salt + length > 53) or a type 5/8/9 hash; distinct by request line. "
         "Not generated: lone surrogates, non-ASCII decimal digits in a type-7 string, NUL inside a type-5 password is generated "
         "(passlib raises ValueError).")
@@ -57,7 +58,7 @@ STD64 = "ABCDEFGHIJKLMNOPQRSTUVWXYZabcdefghijklmnopqrstuvwxyz0123456789+/"
 CISCO64 = "./0123456789ABCDEFGHIJKLMNOPQRSTUVWXYZabcdefghijklmnopqrstuvwxyz"
 ALPHA = [chr(c) for c in range(0x20, 0x7F) if chr(c) not in '?"\\']
 LENS = [1, 2, 52, 53, 54, 106, 107, 126, 127]
-KINDS = ("chk", "dec7", "ref7", "lib7", "h5", "h8", "h9")
+KINDS = ("chk", "dec7", "dec7o", "ref7", "lib7", "h5", "h8", "h9")
 
 
 # ------------------------------------------------------------------ independent reference code (never calls the library)
@@ -151,6 +152,8 @@ def mk(kind, pwd="", salt=0, seed=0, ep="", origin="gen"):
         c["req"] = wire.req("pwd", "chk", wire.enc_str(pwd))
     elif kind == "dec7":
         c["req"] = wire.req("pwd", "dec7", wire.enc_str(ep))
+    elif kind == "dec7o":       # CiscoPassword(pwd).decrypt_type_7(ep): `pwd` carries the constructor argument
+        c["req"] = wire.req("pwd", "dec7o", wire.enc_str(pwd), wire.enc_str(ep))
     elif kind == "ref7":
         c["req"] = wire.req("pwd", "ref7", str(salt), wire.enc_str(pwd))
     elif kind == "lib7":
@@ -269,6 +272,10 @@ def cases(rng, tier):
     # --- decoder on malformed type-7 strings
     for _ in range(2000 if q else 25000):
         yield mk("dec7", ep=malformed7(rng))
+    for _ in range(60 if q else 1500):
+        good = py_encode7(rng.randint(0, 52), rand_pwd(rng, rng.choice([1, 2, 9, 60])))
+        a, b = rng.choice([(good, ""), ("", good), (good, malformed7(rng)), (malformed7(rng), ""), ("", "")])
+        yield mk("dec7o", pwd=a, ep=b)
     # --- hashes (bounded: each costs a KDF at generation, in the library and in the oracle)
     for kind, n in (("h5", 100 if q else 1500), ("h8", 60 if q else 400), ("h9", 60 if q else 400)):
         for i in range(n):
@@ -311,6 +318,8 @@ def describe(case):
     d = {"kind": case["kind"]}
     if case["kind"] == "dec7":
         d["ep"] = case["ep"]
+    elif case["kind"] == "dec7o":
+        d["self_ep"], d["ep"] = case["pwd"], case["ep"]
     else:
         d["pwd"] = case["pwd"]
         if case["kind"] != "chk":
@@ -323,8 +332,8 @@ def describe(case):
 def buckets(case, ans):
     k = case["kind"]
     out = ["kind:" + k, "answer:" + (ans if ans.startswith("err") else "ok")]
-    if k == "dec7":
-        out.append("dec7-len:" + ("odd" if len(case["ep"]) & 1 else "even"))
+    if k in ("dec7", "dec7o"):
+        out.append("dec7-len:" + ("odd" if len(case["ep"] or case["pwd"]) & 1 else "even"))
         return out
     n = len(case["pwd"])
     out.append("len:" + (str(n) if n in LENS or n in (0, 128) else "1-51" if n < 52 else "55-105" if n < 106 else "108-125" if n < 126 else ">128"))
@@ -370,6 +379,8 @@ def impl(case):
         return "ok" if ok else v
     if k == "dec7":
         return _show(_call(cp.decrypt_type_7, case["ep"]))
+    if k == "dec7o":
+        return _show(_call(CiscoPassword(case["pwd"]).decrypt_type_7, case["ep"]))
     if k == "ref7":
         salt = int(case["salt"])
         enc = cisco_type7.using(salt=salt).hash(case["pwd"]) if salt <= 52 else py_encode7(salt, case["pwd"])
@@ -402,7 +413,7 @@ FMT = {
 def oracle(case, ans):
     k, pwd = case["kind"], case["pwd"]
     fails = []
-    if k == "dec7":
+    if k in ("dec7", "dec7o"):
         return fails
     if k != "ref7" and must_reject(pwd):
         if ans != "err:InvalidPassword":
@@ -415,8 +426,12 @@ def oracle(case, ans):
     if ans.startswith("err:"):
         if ans == "err:InvalidPassword" and k != "ref7":
             return fails            # a stricter pwd_check (e.g. the backslash) is not against the statement
+        if k == "ref7" and int(case["salt"]) > 52:
+            return fails
         return [f"{k} raised {ans} for an accepted password"]
     if k == "ref7":
+        if int(case["salt"]) > 52:
+            return fails            # only 0..52 are "possible salts"; 53..99 are compared with the model only
         enc, dec = ans.split("|")
         if wire.dec_str(enc) != py_encode7(int(case["salt"]), pwd):
             fails.append("passlib's type-7 encoding differs from the independent encoder")
